@@ -156,6 +156,11 @@ class C07Stream(R.ScenarioStream):
         out.append(f"phase={tag.get('phase')}")
         out.append(f"period={case['period']}")
         out.append("one_shot" if case["one_shot"] else "forever")
+        if case.get("align_tz"):
+            out.append("align_to_in_DST_zone")
+            xs = R.DST_ZONES[case["align_tz"]]
+            if any(case["start"] < x < case["start"] + case["duration"] for x in xs):
+                out.append("run_crosses_DST_transition")
         if R.ambiguous(case, log):
             out.append("ambiguous_order(not judged)")
         if any(e[0] == "hog" for e in log):
@@ -196,6 +201,9 @@ ASSUMPTIONS = [
     "scripts and judged by the oracle's timer clause, not proved)",
     "asyncio.gather awaits every sink of a tick before the loop continues; dict preserves insertion order",
     "wall clock and loop clock advance together (time_machine is slaved to the virtual loop clock)",
+    "the Z-microsecond model is a model of UTC instants; Python's wall-clock arithmetic on tz-aware datetimes is not "
+    "translated but exercised: align_to is also given in DST-observing zoneinfo zones with runs crossing a transition / "
+    "creation in the other regime, and every recorded timestamp is compared as a UTC instant",
 ]
 
 META = {
@@ -210,7 +218,9 @@ META = {
                   "w0 + k*period, independent of lateness labels, also on the ResamplingError path. The function "
                   "_calculate_window_end is regenerated from /repo on every run; the loop bookkeeping is tied by replaying "
                   "recorded boundary traces of the real Resampler through the model inside Coq.",
-    "level_note": "Not proved, only exercised: Timer(TriggerAllMissed) delivering one tick per elapsed period (the oracle's timer "
+    "level_note": "Time in the model is the UTC instant in microseconds; tz-aware wall-clock arithmetic (DST) is Python semantics "
+                  "covered by scenarios (align_to in Europe/Berlin / America/New_York across transitions), not by the translation. "
+                  "Not proved, only exercised: Timer(TriggerAllMissed) delivering one tick per elapsed period (the oracle's timer "
                   "clause checks it on every run), asyncio scheduling, the supervisor loop of microgrid/_resampling.py (mimicked by "
                   "the harness: on ResamplingError remove the failing sources and call resample() again). Runs in which a driver "
                   "action and a tick are due at the same clock reading are not judged (asyncio gives no order there); they are counted.",
@@ -291,6 +301,12 @@ class ActorStream(R.Stream):
 
     def labels(self, case, obs):
         out = ["actor_run"]
+        if case.get("align_tz"):
+            out.append("align_to_in_DST_zone")
+            if any(case["start"] < x < case["start"] + case["duration"] for x in R.DST_ZONES[case["align_tz"]]):
+                out.append("run_crosses_DST_transition")
+        if any(m.get("yields") is not None for m in case["metrics"]):
+            out.append("request_at_tick_instant")
         if any(e[0] == "close" for e in obs["log"]):
             out.append("source_closed(remove-and-retry)")
         if any(e[0] == "hog" for e in obs["log"]):
